@@ -347,7 +347,7 @@ func Structures() []Entry {
 		"res \"aws\" {\n}\nres {\n}\n",
 		"res \"aws\" \"a\" {\n}\n/* \u017e */ res \"a\" \"n\" {\n}\n",
 		"res \"onlydesc\" \"a\" {\n  m_od = \"1\"\n}\nres \"onlydetail\" \"b\" {\n  m_ot = \"1\"\n}\nres \"neither\" \"c\" {\n  m_no = \"1\"\n}\n",
-		"res \"a&b<c>\" \"x\" {\n  m_amp = \"1\"\n  m_aws = \"no\"\n}\nres \"no\u00a0brk\" \"y\" {\n  m_nbsp = \"1\"\n}\nres \"a&\" \"z\" {\n}\n",
+		"res \"a&b<c>\" \"x\" {\n  m_amp = \"1\"\n  m_aws = \"no\"\n}\nres \"no\u00a0brk\" \"y\" {\n  m_nbsp = \"1\"\n}\nres \"a&\" \"z\" {\n}\nres \"50%d_full\" \"above_80%\" {\n}\n",
 	)
 
 	// two (and three) key attributes selecting one dependent body that has a documentation link
@@ -412,9 +412,11 @@ func Structures() []Entry {
 			"res": {Body: &schema.BodySchema{
 				Extensions: ext(true, true, false, false),
 				Attributes: map[string]*schema.AttributeSchema{
-					"count":    {Constraint: schema.LiteralType{Type: cty.Number}, IsOptional: true, Description: lang.Markdown("own count")},
-					"for_each": {Constraint: schema.LiteralType{Type: cty.String}, IsOptional: true},
-					"other":    strAttr(nil),
+					"count": {Constraint: schema.LiteralType{Type: cty.Number}, IsOptional: true, Description: lang.Markdown("own count"),
+						SemanticTokenModifiers: lang.SemanticTokenModifiers{lang.TokenModifierDependent}},
+					"for_each": {Constraint: schema.LiteralType{Type: cty.String}, IsOptional: true,
+						SemanticTokenModifiers: lang.SemanticTokenModifiers{lang.TokenModifierDependent}},
+					"other": strAttr(nil),
 				}}},
 		}}
 	},
@@ -476,9 +478,25 @@ func Structures() []Entry {
 					BodyAsData: true, InferBody: true, DependentBodyAsData: true, InferDependentBody: true, AsReference: true,
 				},
 			},
+			// the same with only the STATIC body inferred: its written attributes stay elements of the data whether or
+			// not a dependent body is found
+			"sres": {
+				Labels: []*schema.LabelSchema{{Name: "type", IsDepKey: true}, {Name: "name"}},
+				Body:   &schema.BodySchema{Attributes: map[string]*schema.AttributeSchema{"static": strAttr(nil)}},
+				DependentBody: map[schema.SchemaKey]*schema.BodySchema{
+					depKey([]schema.LabelDependent{lbl(0, "x")}, nil): {Attributes: map[string]*schema.AttributeSchema{"dep": {Constraint: schema.LiteralType{Type: cty.Number}, IsOptional: true}}},
+				},
+				Address: &schema.BlockAddrSchema{
+					Steps:      schema.Address{schema.StaticStep{Name: "sres"}, schema.LabelStep{Index: 0}, schema.LabelStep{Index: 1}},
+					BodyAsData: true, InferBody: true, DependentBodyAsData: true, AsReference: true,
+				},
+			},
 		}}
 	},
 		"res \"x\" \"a\" {\n  static = \"s\"\n  dep = 1\n}\nres \"zz\" \"b\" {\n  static = \"t\"\n}\n",
+		"sres \"x\" \"a\" {\n  static = \"s\"\n  dep = 1\n}\nsres \"zz\" \"b\" {\n  static = \"t\"\n}\n",
+		// one address declared twice in a file (each declaration keeps its own target)
+		"res \"x\" \"a\" {\n  static = \"s\"\n}\nres \"zz\" \"m\" {\n}\nres \"x\" \"a\" {\n  dep = 2\n  static = \"second\"\n}\n",
 	)
 
 	add("dep-2labels", func() *schema.BodySchema {
@@ -943,6 +961,22 @@ func Structures() []Entry {
 		}}
 	},
 		"res \"\" \"n\" {\n}\nres \"g\" \"n\" {\n  mode = \"x\"\n  m_gcp_x = \"v\"\n}\nres \"gcp\" \"m\" {\n  mode = \"y\"\n  \n}\n",
+	)
+
+	// a block type with a maximum next to dynamic blocks that generate it (generated blocks do not count as written ones)
+	add("dyn-maxitems", func() *schema.BodySchema {
+		return &schema.BodySchema{Blocks: map[string]*schema.BlockSchema{
+			"res": {Labels: []*schema.LabelSchema{{Name: "type", IsDepKey: true}},
+				Body: &schema.BodySchema{Extensions: ext(false, false, true, false), Attributes: map[string]*schema.AttributeSchema{"st": strAttr(nil)}},
+				DependentBody: map[schema.SchemaKey]*schema.BodySchema{
+					depKey([]schema.LabelDependent{lbl(0, "a")}, nil): {Blocks: map[string]*schema.BlockSchema{
+						"foo": {MaxItems: 1, Body: &schema.BodySchema{Attributes: map[string]*schema.AttributeSchema{"x": strAttr(nil)}}},
+						"two": {MaxItems: 2, Body: &schema.BodySchema{}},
+						"bar": {Body: &schema.BodySchema{}}}},
+				}},
+		}}
+	},
+		"res \"a\" {\n  dynamic \"foo\" {\n    for_each = []\n    content {\n    }\n  }\n  \n}\nres \"a\" {\n  two {\n  }\n  dynamic \"two\" {\n    for_each = []\n    content {\n    }\n  }\n  \n}\n",
 	)
 
 	// the dependent body brings extensions of its own: (a) without DynamicBlocks where the static body enables
